@@ -10,7 +10,7 @@ import pandas as pd
 from .. import bindings as B
 
 LEVEL = 'model_checking'
-CFG = ('SPECIFICATION Spec\nCONSTANTS\n  Mode = "%s"\n  MaxCand = %d\n  MaxCols = %d\nINVARIANT SelectTotal\nINVARIANT DispatchTotal\n'
+CFG = ('SPECIFICATION Spec\nCONSTANTS\n  Mode = "%s"\n  MaxCand = %d\n  MaxCols = %d\n  MaxHist = %d\nINVARIANT SelectTotal\nINVARIANT DispatchTotal\nINVARIANT HistoryFree\n'
        'INVARIANT FallbackOnlyWhenRaising\nINVARIANT Emit\nCHECK_DEADLOCK FALSE\n')
 warnings.simplefilter('ignore')
 
@@ -56,6 +56,60 @@ def _select(case):
                 probs.append(('selected-candidate-not-fitted', how))
         except Exception as ex:
             probs.append(('selection-raised-' + type(ex).__name__, '%s on outcomes %s' % (how, out)))
+    return probs
+
+
+def _history(case):
+    """two selections in a row through the same candidate list: the second must be judged by the second outcome vector alone"""
+    from copulas.multivariate import GaussianMultivariate
+    from copulas.univariate import Univariate
+    from copulas.univariate.selection import select_univariate
+    from ..stubs import hist_class
+    from scipy.stats import norm
+    XA = np.random.RandomState(5).permutation(norm.ppf((np.arange(300) + 0.5) / 300.0))
+    XB = 100.0 + 2.0 * np.random.RandomState(6).permutation(norm.ppf((np.arange(300) + 0.5) / 300.0))
+    first, second = case['first'], case['second']
+    win = set(_set(case['winners']))
+    probs = []
+    for how in ('select_univariate twice, one list', 'one wrapper refitted', 'two wrappers, one list', 'copula columns sharing a prototype'):
+        cands = [hist_class(i + 1, a, b) for i, (a, b) in enumerate(zip(first, second))]
+        try:
+            if how.startswith('select'):
+                try:
+                    select_univariate(XA.copy(), cands)
+                except Exception:
+                    pass
+                inst = select_univariate(XB.copy(), cands)
+            elif how.startswith('one wrapper'):
+                u = Univariate(candidates=cands)
+                try:
+                    u.fit(XA.copy())
+                    u.cumulative_distribution(np.array([0.1]))
+                except Exception:
+                    pass
+                u.fit(XB.copy())
+                inst = u._instance
+            elif how.startswith('two wrappers'):
+                u1, u2 = Univariate(candidates=cands), Univariate(candidates=cands)
+                try:
+                    u1.fit(XA.copy())
+                except Exception:
+                    pass
+                u2.fit(XB.copy())
+                inst = u2._instance
+            else:
+                if not any(first):
+                    continue        # every candidate fails on the first column: the copula falls back there; nothing to select
+                m = GaussianMultivariate(distribution=Univariate(candidates=cands))
+                m.fit(pd.DataFrame({'a': XA.copy(), 'b': XB.copy()}))
+                u = m.univariates[1]
+                inst = getattr(u, '_instance', u)
+            pos = [i + 1 for i, c in enumerate(cands) if type(inst) is c]
+            if not pos or pos[0] not in win:
+                probs.append(('second-selection-depends-on-the-first', '%s: outcomes %s then %s chose position %s (minimal: %s; %s)' %
+                              (how, first, second, pos, sorted(win), type(inst).__name__)))
+        except Exception as ex:
+            probs.append(('selection-raised-' + type(ex).__name__, '%s on outcomes %s then %s' % (how, first, second)))
     return probs
 
 
@@ -218,7 +272,8 @@ def _dispatch(case):
 def run(ctx):
     quick = ctx.tier == 'quick'
     ctx.rule = ('TLC (Selection) enumerates (a) every outcome vector of 1..4 candidates (cannot be fitted / KS rank 1..3) with the set of '
-                'admissible winners, (b) every parametric x bounded filter combination with the expected candidate set, (c) every '
+                'admissible winners, (a2) every pair of different outcome vectors of 1..2 (3) candidates on two data sets selected one after the other through the same '
+                'candidate list (one list twice, one wrapper refitted, two wrappers, the column copies of a copula prototype): the second answer depends on the second vector only, (b) every parametric x bounded filter combination with the expected candidate set, (c) every '
                 'GaussianMultivariate configuration form x column count x named-column subset x raising-column subset with the expected model '
                 'per column; each case is realised on the real code (stub candidates with controlled KS distance, PickyGaussian that raises '
                 'on marked columns); plus real candidate subsets on 7 data shapes judged by independently computed KS statistics. '
@@ -226,8 +281,8 @@ def run(ctx):
     ctx.assumptions = ['stub candidates have KS distances separated by 0.15 (sampling noise of n=300 is 0.05)',
                        'ties in KS rank: any of the tied candidates is accepted']
     allc = {}
-    for mode in ('select', 'filter', 'dispatch'):
-        r = ctx.tlc('Selection.' + mode, 'Selection', CFG % (mode, 4, 3 if quick else 4), workers=1, timeout=900)
+    for mode in ('select', 'history', 'filter', 'dispatch'):
+        r = ctx.tlc('Selection.' + mode, 'Selection', CFG % (mode, 4, 3 if quick else 4, 2 if quick else 3), workers=1, timeout=900)
         allc[mode] = [c[0] for c in r.tagged('CASE')]
     rs = np.random.RandomState(ctx.seed)
     real = []
@@ -244,15 +299,18 @@ def run(ctx):
     with Pool(16) as pool:
         rnear = pool.map(_neartie, near, chunksize=4)
         rsel = pool.map(_select, allc['select'], chunksize=8)
+        rhis = pool.map(_history, allc['history'], chunksize=4)
         rfil = pool.map(_filter, allc['filter'], chunksize=2)
         rdis = pool.map(_dispatch, allc['dispatch'], chunksize=2)
         rreal = pool.map(_real, real, chunksize=1)
-    for kind, cases, res in (('neartie', near, rnear), ('select', allc['select'], rsel), ('filter', allc['filter'], rfil), ('dispatch', allc['dispatch'], rdis), ('real', real, rreal)):
+    for kind, cases, res in (('neartie', near, rnear), ('select', allc['select'], rsel), ('history', allc['history'], rhis), ('filter', allc['filter'], rfil), ('dispatch', allc['dispatch'], rdis), ('real', real, rreal)):
         for case, probs in zip(cases, res):
             ctx.case(kind + '|' + json.dumps(case, sort_keys=True, default=str))
             for p, detail in probs:
                 if kind == 'select':
                     b = 'n=%d,fail=%d' % (len(case['outcomes']), sum(1 for o in case['outcomes'] if o == 0))
+                elif kind == 'history':
+                    b = 'n=%d,failed-before=%d' % (len(case['second']), sum(1 for o in case['first'] if o == 0))
                 elif kind == 'filter':
                     b = '%s,%s' % (case['parametric'], case['bounded'])
                 elif kind == 'dispatch':
